@@ -6,6 +6,7 @@ import (
 	"fmt"
 
 	"github.com/jrhy/mast"
+	s3persist "github.com/jrhy/mast/persist/s3"
 	"pgregory.net/rapid"
 	"verif/harness/core"
 	"verif/harness/env"
@@ -35,6 +36,9 @@ type C03Case struct {
 	Attempts  []C03Attempt `json:"attempts"`   // successive MakeRoot calls under fate plans; a final fault-free attempt is always added
 	Singles   bool         `json:"singles"`    // additionally enumerate every single failing arrival position of the first attempt
 	TwoStores bool         `json:"two_stores"` // afterwards persist the same contents into a second store (different prefix) sharing the cache
+	// ErrKind: what a failing Store call returns (index into env.FailErrKinds: a plain error, or one wrapping
+	// context.Canceled / context.DeadlineExceeded / io.ErrUnexpectedEOF while the caller's context is alive)
+	ErrKind int `json:"err_kind,omitempty"`
 }
 
 var c03Weights = core.OpWeights{
@@ -87,6 +91,7 @@ func genC03(t *rapid.T, tier string) C03Case {
 	}
 	c.Singles = rapid.IntRange(0, 3).Draw(t, "singles") == 0
 	c.TwoStores = rapid.IntRange(0, 3).Draw(t, "twostores") == 0
+	c.ErrKind = rapid.SampledFrom([]int{0, 0, 0, 1, 2, 3}).Draw(t, "errkind")
 	return c
 }
 
@@ -100,6 +105,7 @@ type c03World struct {
 func c03Build(c C03Case) (*c03World, bool) {
 	w := core.NewWorld(c.Cfg)
 	gate := env.NewGatedStore(w.Store)
+	gate.FailErr = env.FailErrKinds[c.ErrKind%len(env.FailErrKinds)]
 	// the tree stores through the gate from the start
 	root := w.NewRoot()
 	var m0 *mast.Mast
@@ -356,6 +362,19 @@ func runC03(c C03Case, o *run.Obs) error {
 		cache, _ := core.MakeCache(c.Cfg.Cache)
 		var roots []*mast.Root
 		stores := []mast.Persist{mast.NewInMemoryStore(), mast.NewInMemoryStore()}
+		what := "two in-memory stores"
+		if len(c.Base)%2 == 1 {
+			// or two S3 stores on one bucket whose object prefixes differ (also only by a trailing slash, an extra
+			// slash, a suffix): different objects, hence different stores
+			pairs := [][2]string{{"nodes/", "nodes"}, {"a/", "a//"}, {"", "x"}, {"p", "p-"}, {"v1/", "v2/"}}
+			pr := pairs[(len(c.Base)/2)%len(pairs)]
+			client := env.NewMiniS3()
+			ep := []string{"https://s3.example", "https://s3.example/"}[(len(c.Base)/4)%2]
+			sa := s3persist.NewPersist(client, ep, "bucket", pr[0])
+			sb := s3persist.NewPersist(client, ep, "bucket", pr[1])
+			stores = []mast.Persist{&sa, &sb}
+			what = fmt.Sprintf("two S3 stores on one bucket with object prefixes %q and %q", pr[0], pr[1])
+		}
 		for _, st := range stores {
 			var m *mast.Mast
 			if err := core.Safely("LoadMast", func() error {
@@ -391,17 +410,21 @@ func runC03(c C03Case, o *run.Obs) error {
 					return b, err == nil
 				})
 				if err != nil {
-					return fmt.Errorf("[%s] two in-memory stores sharing one node cache, the same %d entries persisted into each: MakeRoot on store #%d returned success but the version is not complete in that store: %w", c.Cfg, len(cw.t.Model), i+1, err)
+					return fmt.Errorf("[%s] %s sharing one node cache, the same %d entries persisted into each: MakeRoot on store #%d returned success but the version is not complete in that store: %w", c.Cfg, what, len(cw.t.Model), i+1, err)
 				}
 				n := 0
 				for _, nd := range nodes {
 					n += len(nd.Keys)
 				}
 				if n != len(cw.t.Model) {
-					return fmt.Errorf("[%s] two in-memory stores sharing one node cache: store #%d reaches %d entries, the tree has %d", c.Cfg, i+1, n, len(cw.t.Model))
+					return fmt.Errorf("[%s] %s sharing one node cache: store #%d reaches %d entries, the tree has %d", c.Cfg, what, i+1, n, len(cw.t.Model))
 				}
 			}
-			o.Label("two-library-in-memory-stores-one-cache")
+			if what == "two in-memory stores" {
+				o.Label("two-library-in-memory-stores-one-cache")
+			} else {
+				o.Label("two-s3-stores-one-cache")
+			}
 		}
 	}
 	o.NonTrivial = sawReorder || failedThenOK
